@@ -100,7 +100,9 @@ PROPS["C07"] = dict(
                "mul_128x64, mul_reduce, mul_by_modulus, sub_modulus, sub_192x192, add64_with_carry) is proved entirely in "
                "Verus, bit-precisely, from the extracted bodies: canonical operands give a canonical result congruent to a*b. "
                "The binary-Euclid inversions of the 62- and 128-bit fields are proved partially correct from their extracted bodies "
-               "(loop invariants a*x == v, d*x == -u mod p with explicit witnesses; a halving budget bounds the 192-bit accumulators).",
+               "(loop invariants a*x == v, d*x == -u mod p with explicit witnesses; a halving budget bounds the 192-bit accumulators). "
+               "The 128-bit field's wrappers (new, + - * / neg, inv, double, square, exp / exp_vartime over u128 exponents) are proved against "
+               "those primitives, and get_root_of_unity of all three fields returns, for every admissible n, an element of order exactly 2^n.",
     level_note="Trusted: Kani/CBMC/CaDiCaL, Verus/Z3, rustc; leaf contracts proved by Kani are assumed (external_body) "
                "in the Verus units with the same clause text; primality of the moduli / Fermat for inv; type shims "
                "for BaseElement in the Verus files. Functions not under contract are listed in DESIGN.md 4.C07.",
@@ -111,8 +113,8 @@ PROPS["C07"] = dict(
     not_decided=[],
 )
 
-verus_unit("f64v", "f64", ["C07"], ["f64::BaseElement::new", "f64::Mul::mul", "traits::FieldElement::square", "f64::exp", "f64::exp_acc", "f64::inv", "f64::exp7", "f64::Div::div", "f64::Neg::neg", "f64::StarkField::as_int", "f64::From<u32>"])
-verus_unit("f62v", "f62", ["C07"], ["f62::mul", "f62::add", "f62::sub", "f62::normalize", "f62::Add/Sub/Mul/Neg", "f62::new", "f62::as_int", "f62::double", "square", "f62::eq", "f62::exp", "traits::FieldElement::exp_vartime (u64 instantiation)", "f62::inv (partial correctness: x * inv(x) == 1 for x != 0, inv(0) == 0; termination of the Euclid loops not proved)"])
+verus_unit("f64v", "f64", ["C07"], ["f64::BaseElement::new", "f64::Mul::mul", "traits::FieldElement::square", "f64::exp", "f64::exp_acc", "f64::inv", "f64::exp7", "f64::Div::div", "f64::Neg::neg", "f64::StarkField::as_int", "f64::From<u32>", "traits::StarkField::get_root_of_unity (64-bit instantiation: order exactly 2^n for every admissible n)"])
+verus_unit("f62v", "f62", ["C07"], ["f62::mul", "f62::add", "f62::sub", "f62::normalize", "f62::Add/Sub/Mul/Neg", "f62::new", "f62::as_int", "f62::double", "square", "f62::eq", "f62::exp", "traits::FieldElement::exp_vartime (u64 instantiation)", "traits::StarkField::get_root_of_unity (62-bit instantiation: order exactly 2^n for every admissible n)", "f62::inv (partial correctness: x * inv(x) == 1 for x != 0, inv(0) == 0; termination of the Euclid loops not proved)"])
 
 for _u, _fns in (("f64x", ["f64::ExtensibleField<2>::{mul,square,mul_base,frobenius}", "f64::ExtensibleField<3>::{mul,square,mul_base,frobenius}"]),
                  ("f62x", ["f62::ExtensibleField<2>::{mul,mul_base,frobenius}", "f62::ExtensibleField<3>::{mul,mul_base,frobenius}"]),
